@@ -151,7 +151,7 @@ def runFlowOk (st : St) (c : Call) : St × List String :=
   | "set_param" :: _ => (st, ["O set_param ok"])
   | "update" :: _ => callUpdate c st mstHook
   | "acc" :: _ => (st, callAcc "" c st.topo.n st.g)
-  | "basins" :: _ => (st, callBasins "" st.topo.n st.g st.mask st.isBase)
+  | "basins" :: _ => (st, callBasins "" st.topo.n st.g st.mask st.isBase ++ certBasins c st)
   | "pits" :: _ =>
     -- outlets of the last delineation, pits judged against the base levels in force NOW
     let seeds := ((findInp c "seeds").getD []).map natOf
